@@ -10,6 +10,7 @@ import (
 	"math/rand"
 	"os"
 	"runtime/debug"
+	"strings"
 	"sync"
 	"time"
 
@@ -40,6 +41,7 @@ type PeerScenario struct {
 type SecureCfg struct {
 	Password string            `json:"password"`
 	AuxPw    map[string]string `json:"auxpw"`    // aux address -> password ("" = none)
+	AuxErr   bool              `json:"auxerr"`   // the callback reports an unknown auxiliary password with an error
 	Callback string            `json:"callback"` // "ok", "none" (not registered), "error"
 }
 
@@ -165,6 +167,9 @@ func RunPeerScenario(ps *PeerScenario) ([]rec.Event, Result) {
 				return "", fmt.Errorf("no password available")
 			}
 			if pw, ok := sec.AuxPw[addr.Addr]; ok {
+				if pw == "" && sec.AuxErr {
+					return "", fmt.Errorf("no password known for %s", addr.Addr) // "unknown" reported as an error instead of ""
+				}
 				return pw, nil
 			}
 			return sec.Password, nil
@@ -320,7 +325,7 @@ func digestOf(challenge, password string, salt []byte) []int {
 	return out
 }
 
-var pwAlphabet = []string{"FOOBAR", "s3cret!", "Sup3rS3cret ", " leading", "with space inside", "pässwörd", "UPPER", "upper", "a|b|c", "12345678", "x", "tab\there", "ends\\", "%s%d%n", "ÆØÅ\xff\xfe"}
+var pwAlphabet = []string{strings.Repeat("long-password-", 4) + "x", strings.Repeat("P", 56), strings.Repeat("Q", 64), strings.Repeat("0123456789", 12), strings.Repeat("z", 300), "FOOBAR", "s3cret!", "Sup3rS3cret ", " leading", "with space inside", "pässwörd", "UPPER", "upper", "a|b|c", "12345678", "x", "tab\there", "ends\\", "%s%d%n", "ÆØÅ\xff\xfe"}
 
 func MainC16(args []string) int {
 	fs := flag.NewFlagSet("b2f-c16", flag.ExitOnError)
@@ -350,7 +355,7 @@ func MainC16(args []string) int {
 	mk := func(challenge, password string, aux []string, auxpw map[string]string, cb string) {
 		ps := &PeerScenario{ID: len(scs) + 1, LibPol: map[string]string{}, Seed: rng.Int63(), Seg: []string{"all", "one", "rand"}[rng.Intn(3)],
 			Sched: "free", MyCall: "LA1AAA", Locator: "JO29PJ", Aux: aux,
-			Secure: &SecureCfg{Password: password, AuxPw: auxpw, Callback: cb},
+			Secure: &SecureCfg{Password: password, AuxPw: auxpw, Callback: cb, AuxErr: rng.Intn(2) == 0},
 			Script: &PeerScript{Master: true, Sid: sidVariants[rng.Intn(len(sidVariants))], PQ: challenge, Answers: map[string]string{},
 				Prompt: "CMS via LA2BBB >"}}
 		scs = append(scs, ps)
